@@ -35,8 +35,21 @@ RULE = ("(1) sweep: every grammar of the classes 2x2 (non-terminals A,B, termina
         "about half of the cases by a terminal or a non-nullable symbol in a prefix, plus unrelated productions, "
         "names drawn at random from a pool that mixes early and late letters; and the C01 generator with 25% "
         "left-recursive choices; up to 8 inputs each (sentences, mutated sentences, random strings).  "
+        "(3) histories: all constructor calls of a case run in ONE process, one after another.  In the sweep the "
+        "productions object of a grammar is, depending on its index, a new dict (7/16), the SAME dict object as the "
+        "grammar constructed before it, emptied and refilled (4/16), the same dict and the same list objects edited by "
+        "slice assignment (3/16), a new dict holding the previous list objects (1/16), or a dict created after the "
+        "previous one was dropped (1/16: CPython hands out the same id() again); every fourth index the parser "
+        "accepted last parses its inputs once more after the later constructor call.  'hist' cases: 3-7 calls on "
+        "related larger grammars (small edits biased to add or remove a zero-token cycle: add / delete an "
+        "alternative, put a terminal in front / take it away, toggle an empty alternative, replace a symbol, rename "
+        "the non-terminals by a permutation, add / drop a symbol, reorder; earlier versions again; the untouched "
+        "object again), each call with one of the object relations above, other start symbol / smart flag now and "
+        "then; every call's outcome, is_ambiguous and parses, and the parses of every accepted parser after the last "
+        "call, are compared with the model evaluated on the contents of the object at the time of the call.  "
         "Non-trivial = a left-recursive grammar whose every cycle needs a nullable prefix, or an accepted grammar "
-        "with a nullable symbol of which at least one input was parsed to a tree.")
+        "with a nullable symbol of which at least one input was parsed to a tree; for a history: a call on an object "
+        "related to the previous call's object whose verdict differs from the previous call's, and a tree parsed.")
 TRUSTED_BASE = [
     "tokenisation is outside this model: the model's parse receives the generator's token list; the implementation "
     "tokenises the rendered text (tokenizer covered by C04)",
@@ -45,10 +58,16 @@ TRUSTED_BASE = [
     "is a terminal or has productions, terminals have none); generated grammars never trigger them",
     "a parse that does not return within the wall budget (0.4 s for the swept grammars / 1 s for the larger ones, confirmed "
     "once with 1.5 s; constructor: 2 s) is taken for a hang; normal parses of the generated inputs take < 10 ms",
+    "histories: the model of the class has no state between constructor calls (C03.Run.Session maps the calls "
+    "independently); that the implementation has none (no class / module level memory keyed by object identity, by "
+    "symbol names, start symbol or shape) is tested by the Session correspondence and the sweep, not proved; re-use of "
+    "an id() after the object died is provoked by dropping and re-creating the dict (CPython allocator behaviour, "
+    "counted in the evidence: c03_counts.*_reused_ids)",
 ]
 ASSUMPTIONS = ["grammars use plain productions (templates are C05's subject)"]
 MODELLED = ("ak/llparser.py: LLParser._verify_grammar_structure_part2 (lines 1876-1950) as LLP/RecCheck.v; the main loop of "
-            "parse (1679-1800) as LLP/Parse.v; _get_nullables as LLP/Table.v:nullables; constructor pipeline as LLP/Build.v")
+            "parse (1679-1800) as LLP/Parse.v; _get_nullables as LLP/Table.v:nullables; constructor pipeline as LLP/Build.v; "
+            "a sequence of constructor calls in one process as C03/Run.v:Session / session_outcomes (stateless)")
 
 
 # ------------------------------------------------------------------ sweep classes
@@ -389,7 +408,7 @@ def gen_cases(rng, tier):
     for _ in range(2000 if big else 150):
         cases.append(_full_case(rng, L.gen_grammar(rng, allow_leftrec=0.25), 8))
     # (3) histories of constructor calls in one process
-    for _ in range(2500 if big else 220):
+    for _ in range(2500 if big else 150):
         cases.append(gen_history(rng))
     # the implementation runner cuts the case list into consecutive shards: spread the (expensive) sweep chunks
     rng.shuffle(cases)
@@ -559,7 +578,7 @@ def _parse_all(p, llparser, inputs, budget, hangs_left):
 
 def _run_history(case, llparser):
     objs = _Objects()
-    steps, parsers, hangs_left = [], [], MAX_HANGS
+    steps, parsers, hangs_left = [], [], 1      # after the first confirmed hang no further parse of the history is run
     for st in case["steps"]:
         # (no local name for the object: a 'reuse' step needs the previous object to be really dead)
         p, err = _ctor_pd(llparser, case["terms"], objs.next(st["mode"], st["prods"]), st["start"], st["smart"])
@@ -918,15 +937,20 @@ LEVEL_TEXT = ("Full on the models, relative to the factorized grammar fg. First 
               "pre nullable) and returns a parser iff it is not; the step budget of the model's loop is proved sufficient. "
               "Second sentence: spine_bound (stack elements starting at the same token position form a |> path, at most "
               "#keys+1 of them), stack_depth_bound, parse_terminates (explicit bound: 2^k iterations with k <= B^(D+1)), "
-              "accepted_parse_terminates (build = Ok p -> every input: no Hang). NOT proved, tested only: that fg is "
+              "accepted_parse_terminates (build = Ok p -> every input: no Hang). session_exact: in a sequence of constructor calls "
+              "call k raises GrammarIsRecursive iff ITS grammar is left-recursive (the model keeps no state between calls; "
+              "that the implementation keeps none is TESTED: Session correspondence cases and the sweep pass the same "
+              "productions object edited in place, objects sharing lists, re-created objects, name permutations and "
+              "earlier versions again, all in one process, and re-parse with earlier parsers afterwards). "
+              "NOT proved, tested only: that fg is "
               "left-recursive iff the user's grammar is (the oracle decides left recursion on the USER's productions with "
               "an independent algorithm; thorough tier: all 37.4 million grammars of the two swept classes, i.e. every "
               "shape under every name permutation; quick: 130 000 sampled + 650 random larger grammars with hidden "
-              "cycles); the hypotheses part1_ok (outcome of _verify_grammar_structure_part1, outside the model) are "
+              "cycles + 150 histories of 3-7 calls); the hypotheses part1_ok (outcome of _verify_grammar_structure_part1, outside the model) are "
               "evaluated by the model on every generated grammar; template productions are outside the model.")
 LEVEL_NOTE = ("Trusted: Coq kernel + vm_compute; fidelity of the hand-written models LLP/RecCheck.v, Table.v:nullables, "
               "Parse.v, Build.v (checked on every run by the correspondence: constructor outcome of every case, "
-              "is_ambiguous, parse trees / error classes / Hang of the random cases); part1 checks and tokenizer outside "
+              "is_ambiguous, parse trees / error classes / Hang of the random cases and of every call of the histories); part1 checks and tokenizer outside "
               "the model; a wall budget (0.4 s / 1 s, confirmed with 1.5 s; constructor 2 s) stands for 'does not "
               "return' on the implementation side.  Print Assumptions: closed under the global context for every theorem.")
 DESIGN_REF = "DESIGN.md section 8, C03"
